@@ -8,7 +8,7 @@ Import ListNotations.
 From CXV Require Import Gen.Blocks Parse.BlocksSM Parse.BlocksSpec Parse.BlocksThms.
 From CXV Require Gen.PinsC03.
 From CXV Require Import Gen.ParserTables Parse.Balanced Parse.BalancedThms Parse.Specs Parse.ClassEnum Parse.CtorDtor.
-From CXV Require Import Gen.TokTy Parse.Declarator Parse.DeclSpec Parse.DeclThms Parse.BaseClause Parse.EnumList Parse.Specs Parse.Init Parse.Members Parse.MethodTail Parse.DeclStmt Parse.MemberStmt Parse.OpName Parse.FinishClass Parse.ConvOp Parse.OperatorMember Parse.FriendStmt Gen.TopLoop Parse.Bodies Parse.ClassDef Parse.ClassDefThms Parse.ClassDefElems Parse.PQName Parse.Using Parse.EnumDecl.
+From CXV Require Import Gen.TokTy Parse.Declarator Parse.DeclSpec Parse.DeclThms Parse.BaseClause Parse.EnumList Parse.Specs Parse.Init Parse.Members Parse.MethodTail Parse.DeclStmt Parse.MemberStmt Parse.OpName Parse.FinishClass Parse.ConvOp Parse.OperatorMember Parse.FriendStmt Gen.TopLoop Parse.Bodies Parse.ClassDef Parse.ClassDefThms Parse.ClassDefElems Parse.PQName Parse.Using Parse.EnumDecl Parse.Template Parse.TemplateStmt.
 Open Scope N_scope.
 
 (* the access delivered with a member equals the backward-scan specification
@@ -347,6 +347,14 @@ Theorem enum_members_are_tree_elements : forall n dt cls dcls key name p items t
            (fun acc => IEnum acc mods0 key name false false (option_map pn2_out p) (map strip_e items) FinNone).
 Proof. exact enum_definition_is_member. Qed.
 
+(* class templates: a template header (any parameter list of C01's template theorem) in front of a class definition tree:
+   the class is reported with exactly that header, and its members as in the untemplated case *)
+Theorem class_templates_decode_partial : forall n dt h (w : wclass) T,
+  Forall tp_ok h -> welem_ok n dt anon_base anon_base (WClass w) -> tail_ok T ->
+  ev (fun f => body (S (S (esize (WClass w)))) n f dt None 0 0 (ktok T_template :: tlist_toks h ++ welem_toks (WClass w) ++ T))
+     (DOk ([ITemplate [h] (wclass_spec 0 w)], 0, T)).
+Proof. exact class_template_tree. Qed.
+
 (* the functions the hand-written models above mirror (_parse_class_decl, _parse_class_decl_base_clause, _maybe_parse_class_enum_decl, _parse_decl, _parse_method_end, _discard_ctor_initializer, _parse_field, _parse_bitfield, _parse_declarations, _parse_function, _parse_pqname_name_operator, _parse_operator_conversion and _finish_class_or_enum) are, token for
    token of their syntax trees, the ones the models were written against: the
    translator recomputes the digests from the live code and produces Gen/PinsC03.v
@@ -359,6 +367,7 @@ Print Assumptions member_statements_are_tree_elements.
 Print Assumptions using_declaration_members_are_tree_elements.
 Print Assumptions alias_members_are_tree_elements.
 Print Assumptions enum_members_are_tree_elements.
+Print Assumptions class_templates_decode_partial.
 Print Assumptions class_head_decodes_partial.
 Print Assumptions method_tail_decodes_partial.
 Print Assumptions field_statement_decodes_partial.
